@@ -452,6 +452,27 @@ theorem C16_stack_removed_unroutable (valid : Bytes → Bool) (eval : Bytes → 
     (∀ S r, (run valid St.init h).svc.routes S = some r → r.target ≠ T → st.svc.routes S = some r) :=
   Stack_removed_unroutable valid eval h T
 
+/-- `Stack_swap` (GB/Stack/Props.lean), restated here so that `./check C16` audits it: Remove and Add of one name started
+    together settle in the same state whichever takes effect first — present in front of the new description. -/
+theorem C16_stack_swap (valid : Bytes → Bool) (eval : Bytes → Route → GB.C06.Outcome) (h : List GB.Stack.Op) (T : GB.C06.Name) (d : Desc)
+    (hpres : presentOf h T = true) :
+    run valid St.init (h ++ [.add T (some d), .remove T, .add T (some d)]) =
+      run valid St.init (h ++ [.remove T, .add T (some d)]) ∧
+    (run valid St.init (h ++ [.remove T, .add T (some d)])).present T = true ∧
+    (specLatest (h ++ [.remove T, .add T (some d)])).desc T = some (named T d) :=
+  Stack_swap valid eval h T d hpres
+
+/-- `Stack_update_replaces_data` (GB/Stack/Props.lean), restated here so that `./check C16` audits it. -/
+theorem C16_stack_update_replaces_data (valid : Bytes → Bool) (eval : Bytes → Route → GB.C06.Outcome) (h : List GB.Stack.Op) (T : GB.C06.Name)
+    (d : Desc) (hpres : presentOf h T = true) :
+    let h' := h ++ [.update T d]
+    let st := run valid St.init h'
+    (specLatest h').desc T = some (named T d) ∧
+    (∀ S r, st.svc.routes S = some r → r.target = T → listed (named T d).services S ∧ r.ver = d.ver) ∧
+    (∀ m path v r, routeHTTP st.present eval st.pat.static m path = .found T v r →
+        v = d.ver ∧ ∃ rs, built valid (named T d) m = some rs ∧ r ∈ rs) :=
+  Stack_update_replaces_data valid eval h T d hpres
+
 end Restated
 
 example : ((afterR true (stackToC16 stackEnc [.add [97] none, .addFail [98], .remove [97], .add [97] none])).targets
